@@ -140,6 +140,9 @@ pub enum Op {
     /// (choreography marker) this side has released every half of the peer-initiated bidirectional stream it
     /// held: the peer's stream slot is free again from now on
     SlotReleased,
+    /// (choreography) `set_max_concurrent_{bi,uni}_streams(count)` on an otherwise quiet connection whose
+    /// configured limit is 0: the peer's pending open must complete
+    RaiseStreamLimit { uni: bool, count: u8 },
     /// `Connection::authenticated()` (resolves when the handshake completed, 0-RTT accepted or not)
     Authenticated(Cancel),
 }
@@ -245,6 +248,8 @@ pub struct ConnM {
     pub refused: bool,
     /// stop-drop choreography: when the server side let go of the one client-initiated bidirectional stream
     pub slot_released_at: Option<u64>,
+    /// raise-limit choreography: when the server application raised its stream limit from 0 (uni?, time)
+    pub limit_raised_at: Option<(bool, u64)>,
 }
 
 #[derive(Default, Debug)]
@@ -502,6 +507,14 @@ impl Ctx {
                 if let Some(t) = m.conns[ci].slot_released_at {
                     if m.conns[ci].sides[0].first_err.is_none() && m.conns[ci].sides[1].first_err.is_none() && now.saturating_sub(t.max(p.since)) >= SETTLE_NS {
                         found = Some(("c18/teardown/stream-slot-not-released".into(), format!("open_bi on connection {ci} pending since {} ns; the peer read the only client-initiated bidirectional stream to its end, was stopped on its sending half and dropped both handles at {t} ns, now {now} ns, no datagram was lost: the stream never became terminal at the peer, its slot was not returned", p.since)));
+                    }
+                }
+            }
+            if let (kind @ ("open_bi" | "open_uni"), Some((ci, 0))) = (p.kind, p.conn) {
+                if let Some((uni, t)) = m.conns[ci].limit_raised_at {
+                    // (the raise grants one stream: only while the client has opened none of this kind)
+                    if uni == (kind == "open_uni") && m.conns[ci].sides[0].next_open[uni as usize] == 0 && m.conns[ci].sides[0].first_err.is_none() && m.conns[ci].sides[1].first_err.is_none() && now.saturating_sub(t.max(p.since)) >= SETTLE_NS {
+                        found = Some(("c18/lost-wakeup/raised-stream-limit-not-announced".into(), format!("{kind} on connection {ci} pending since {} ns; the peer application raised its limit for these streams from 0 to 1 at {t} ns (set_max_concurrent_*_streams), now {now} ns, no datagram was lost: the new limit never reached this side", p.since)));
                     }
                 }
             }
@@ -2173,6 +2186,17 @@ async fn exec_op(ctx: &Ctx, t: &mut Task, op: &Op) {
         Op::DropEp => t.ep = None,
         Op::Sleep { us } => sleep(&ctx.sim, *us as u64 * 1000).await,
         Op::Yield => Yield::default().await,
+        Op::RaiseStreamLimit { uni, count } => {
+            let Some(conn) = &t.conn else { return };
+            if *uni {
+                conn.c.set_max_concurrent_uni_streams(VarInt::from_u32(*count as u32));
+            } else {
+                conn.c.set_max_concurrent_bi_streams(VarInt::from_u32(*count as u32));
+            }
+            let now = ctx.now();
+            ctx.m.borrow_mut().conns[ci].limit_raised_at.get_or_insert((*uni, now));
+            ctx.label("stream-limit-raised");
+        }
         Op::SlotReleased => {
             let now = ctx.now();
             ctx.m.borrow_mut().conns[ci].slot_released_at.get_or_insert(now);
@@ -3084,6 +3108,9 @@ struct RawConn {
     /// a request/response exchange in which the opener stops the response, the acceptor waits for the stop
     /// and drops its send half without resetting it, and the opener then needs the stream slot again
     stopdrop: bool,
+    /// the configured limit for client-initiated streams of one kind is 0; the client asks for one, the
+    /// server application raises the limit after a while (uni?, sleep µs)
+    raise: Option<(bool, u32)>,
 }
 
 fn arb_conn() -> impl Strategy<Value = RawConn> {
@@ -3095,8 +3122,9 @@ fn arb_conn() -> impl Strategy<Value = RawConn> {
         proptest::collection::vec(arb_tail(), 6),
         (any::<bool>(), prop_oneof![9 => Just(vec![]), 1 => proptest::collection::vec((500u16..1_250, prop_oneof![1 => Just(0u8), 1 => 1u8..4]), 4..14)]),
         proptest::bool::weighted(0.06),
+        proptest::option::weighted(0.06, (any::<bool>(), prop_oneof![0u32..2_000, 2_000u32..300_000])),
     )
-        .prop_map(|((start_delay_us, connect_cancel), (a, b), flows, extras, tails, storm, stopdrop)| RawConn { start_delay_us, connect_cancel, n_tasks: [a, b], flows, extras, tails, storm, stopdrop })
+        .prop_map(|((start_delay_us, connect_cancel), (a, b), flows, extras, tails, storm, stopdrop, raise)| RawConn { start_delay_us, connect_cancel, n_tasks: [a, b], flows, extras, tails, storm, stopdrop, raise: if stopdrop { None } else { raise } })
 }
 
 fn compile(rc: RawConn) -> ConnProg {
@@ -3105,6 +3133,10 @@ fn compile(rc: RawConn) -> ConnProg {
     for (f, client_opens, ot, at) in rc.flows {
         if rc.stopdrop && f.bi && client_opens {
             // the choreography owns the single client-initiated bidirectional slot
+            continue;
+        }
+        if rc.raise.is_some_and(|(uni, _)| uni != f.bi) {
+            // the limit for this kind of stream is 0 in both directions
             continue;
         }
         let (o, a) = if client_opens { (0, 1) } else { (1, 0) };
@@ -3149,6 +3181,13 @@ fn compile(rc: RawConn) -> ConnProg {
         tasks[0][0].splice(0..0, a);
         tasks[1][0].splice(0..0, b);
     }
+    if let Some((uni, us)) = rc.raise {
+        let nc = Cancel::default;
+        let a = vec![if uni { Op::OpenUni(nc()) } else { Op::OpenBi(nc()) }, Op::Finish { s: LAST }];
+        let b = vec![Op::Sleep { us }, Op::RaiseStreamLimit { uni, count: 1 }, if uni { Op::AcceptUni(nc()) } else { Op::AcceptBi(nc()) }];
+        tasks[0][0].splice(0..0, a);
+        tasks[1][0].splice(0..0, b);
+    }
     let mut k = 0;
     for s in 0..2 {
         for t in tasks[s].iter_mut() {
@@ -3176,6 +3215,13 @@ pub fn arb_scenario() -> impl Strategy<Value = Scenario> {
             }
             if conns.iter().any(|c| c.stopdrop) {
                 cfg.max_bi = 1;
+            }
+            for c in &conns {
+                match c.raise {
+                    Some((true, _)) => cfg.max_uni = 0,
+                    Some((false, _)) if !conns.iter().any(|c| c.stopdrop) => cfg.max_bi = 0,
+                    _ => {}
+                }
             }
             (seed, net, cfg, one_endpoint, acceptor, accept_cancel, conns, sched)
         })
@@ -3246,6 +3292,7 @@ pub fn arb_zscenario() -> impl Strategy<Value = ZScenario> {
             cfg.max_uni = cfg.max_uni.max(1);
             // one flow opened by the client comes first, so that something happens in 0-RTT
             rc.flows.insert(0, (flow, true, ft, fa));
+            rc.raise = None;
             let n_tasks = rc.n_tasks;
             let mut prog = compile(rc);
             for (client, t, pos, c) in auths {
